@@ -25,7 +25,7 @@ def sig_text(key):
     name, sig = key
     if not sig:
         return name
-    return name + "(" + ", ".join(f"{p}={'?' if v == '?' else repr(v[1])}" for p, v in sig) + ")"
+    return name + "(" + ", ".join(f"{p}={'?' if v == '?' else v[1] if v[0] == 'o' else repr(v[1])}" for p, v in sig) + ")"
 
 
 def token_sites():
